@@ -1270,7 +1270,7 @@ func TestVerifC08(t *testing.T) {
 		t.Skip("VERIF_OUT not set")
 	}
 	t0 := time.Now().Truncate(time.Second)
-	n := h.N(1200, 30000)
+	n := h.N(3000, 40000)
 	for idx := 0; idx < n; idx++ {
 		r := h.Begin(idx)
 		if r == nil {
